@@ -119,7 +119,7 @@ func init() {
 	core.Register(&core.Prop{
 		ID:    "C15",
 		Title: "Size, Empty, Values, Keys and Clear agree on every container",
-		Cases: func(tier string) int { return tierN(tier, 8400, 210000) },
+		Cases: func(tier string) int { return tierN(tier, 42000, 840000) },
 		Run:   runC15,
 		Rule: "one container per case, cycling through all 21 kinds (int or string elements; four key/value type pairs; random comparator, ring capacity, B-tree order); a random history of 5-80 mutating calls with hostile arguments, " +
 			"after each of which Empty <=> Size==0, len(Values)==Size>=0, len(Keys)==Size are checked and String() (prefix, purity) on every 4th; then Clear at that point and a continuation of 5-40 calls applied identically to the cleared container " +
